@@ -24,6 +24,8 @@ ASSUMPTIONS = [
     'cell complements #n are not moved by the TRCL of the referencing cell '
     '(behaviour validated upstream on trcl_complement*.imcnp)',
     'lattices are excluded here (C06/C07)',
+    'a fill transformation whose matrix is a reflection (twin-fill decks '
+    'only) is read as written, a = B (p - o): the universe appears mirrored',
     'decidability rule |f| > 1e-6 * sum|terms|',
 ]
 
@@ -52,10 +54,11 @@ def with_options(draw, base):
 def strategy(tier):
     from hypothesis import strategies as st
     hier = gen_hier.hier_case(tier, {'lattice': False, 'surface_tr': True})
-    # one universe placed in several containers under related (proper)
-    # transformations: every copy is located through its own frame
+    # one universe placed in several containers under related
+    # transformations (equal, turned, mirrored): every copy is located
+    # through its own frame
     return with_options(st.one_of(hier, hier, hier, hier,
-                                  gen_hier.twin_fill_case(tier)))
+                                  gen_hier.twin_fill_case(tier, mirrors=True)))
 
 
 def budget(tier):
